@@ -333,3 +333,19 @@ def under_flag(guards, text: str, val: bool = True) -> bool:
         if s == f"not {text}" and pol != val:
             return True
     return False
+
+
+def reached_for(guards, name: str, value, others=()) -> bool:
+    """Is a node with these guards reached when the formal `name` has `value`, and not when it has any of `others`? Guards
+    are evaluated with everything else unknown (sa.specialise._eval): a guard the valuation does not decide is compatible
+    with it. Understands `name == 'x'`, `!=`, `in (...)`, `not`, and / or - in the true arm, the else arm, or after guard
+    clauses (see guards_of)."""
+    from .specialise import _eval, _UNK
+
+    def compatible(val):
+        for t, pol in guards:
+            v = _eval(t, {name: val})
+            if v is not _UNK and bool(v) != pol:
+                return False
+        return True
+    return compatible(value) and not any(compatible(o) for o in others)
